@@ -280,6 +280,8 @@ func runC02(seed int64, n int, tier string, outDir string) (*Report, error) {
 	dupMaps := []ap.NaturalLanguageValues{
 		{{Ref: "en", Value: ap.Content("a")}, {Ref: "en", Value: ap.Content("b")}},
 		{{Ref: "en", Value: ap.Content("a")}, {Ref: "fr", Value: ap.Content("b")}, {Ref: "en", Value: ap.Content("c")}},
+		{{Ref: "en", Value: ap.Content("a")}, {Ref: "en", Value: ap.Content("b")}, {Ref: "fr", Value: ap.Content("c")}},
+		{{Ref: "en", Value: ap.Content("a")}, {Ref: "en", Value: ap.Content("b")}, {Ref: "en", Value: ap.Content("c")}, {Ref: "fr", Value: ap.Content("d")}, {Ref: "de", Value: ap.Content("e")}},
 		{{Ref: "\xff", Value: ap.Content("a")}, {Ref: "\xfe", Value: ap.Content("b")}},
 		{{Ref: "\xff", Value: ap.Content("a")}, {Ref: "\xef\xbf\xbd", Value: ap.Content("b")}},
 		{{Ref: "\xef\xbf\xbd", Value: ap.Content("a")}, {Ref: "\xfe", Value: ap.Content("b")}, {Ref: "\xfe\xff", Value: ap.Content("c")}},
